@@ -17,7 +17,7 @@ EXPLANATION = (
     "with a reference model of locations.md that is validated against the real 3.11, 3.12 and 3.13 "
     "interpreters on every run and again on every counterexample.")
 BOUNDS = {
-    "quick": "exception tables: all byte strings of length 0..6; location tables: 1 entry over 13 entry forms "
+    "quick": "exception tables: all byte strings of length 0..6, plus complete entries with varints of 1-4 bytes (9 length patterns, all digits symbolic); location tables: 1 entry over 13 entry forms "
              "(short x2, one-line x3, no-column with 1/2/3-byte varint, long with 4 varint-length patterns, none) and "
              "2 entries over 8 forms; first line 1..10^6; 3-byte varints in the co_lines walker only in thorough",
     "thorough": "exception tables: length 0..8; location tables: 1-2 entries over all 13 forms, 3 entries over 8 forms",
@@ -202,6 +202,39 @@ def exc_ob(n, vt, tier):
               oracle="R-src dis._parse_exception_table of CPython %d.%d" % vt)
 
 
+def exc_form_ob(lens, vt, tier):
+    """one complete entry (start, length, target, depth|lasti) whose four varints have the given byte lengths:
+    structure concrete (continuation bits), every 6-bit digit symbolic; followed by a second 1-1-1-1 entry"""
+    params = []
+    layout = []
+    for fi, n in enumerate(list(lens) + [1, 1, 1, 1]):
+        for j in range(n):
+            nm = "f%d_%d" % (fi, j)
+            params.append((nm, (0, 63)))
+            layout.append((nm, 64 if j < n - 1 else 0))
+
+    def body(**kw):
+        import xdis.bytecode as B
+        items = [cont + kw[nm] for nm, cont in layout]
+        items[0] = items[0] + 128    # CPython sets bit 7 on the first byte of an entry; the parsers ignore it
+        tbl = mkbytes(items)
+        got = B.parse_exception_table(tbl)
+        dis = oracles.load_dis(vt)
+
+        class _Co:
+            co_exceptiontable = tbl
+        ref = dis._parse_exception_table(_Co)
+        assert len(got) == len(ref) == 2, "entry count: xdis %d, CPython %d" % (len(got), len(ref))
+        for g, r in zip(got, ref):
+            assert g.start == r.start and g.end == r.end and g.target == r.target and g.depth == r.depth \
+                and bool(g.lasti) == bool(r.lasti), "entry: xdis %r, CPython %r" % (tuple(g), tuple(r))
+
+    return Ob(id="C17.excform.%s.py%d%d" % ("".join(str(n) for n in lens), vt[0], vt[1]), prop="C17", params=params, body=body,
+              funcs=FUNCS, skeleton="exception table entry with varint byte lengths %r (+ a short entry) vs dis %d.%d" % (lens, vt[0], vt[1]),
+              bound="every 6-bit varint digit symbolic", timeout=60 if tier == "quick" else 200,
+              oracle="R-src dis._parse_exception_table of CPython %d.%d" % vt)
+
+
 def fmt_ob(tier):
     params = [("s", (0, 1)), ("ln", (0, 1)), ("t", (0, 1)), ("d", (0, 1)), ("la", (0, 1))]
 
@@ -268,6 +301,17 @@ def generate(tier, seed):
                 continue
             obs.append(exc_ob(n, vt, tier))
     obs.append(fmt_ob(tier))
+    if tier == "quick":
+        lens_list = [(1, 1, 1, 1), (2, 1, 1, 1), (3, 1, 1, 1), (1, 3, 1, 1), (1, 1, 3, 1), (1, 1, 1, 3), (2, 2, 2, 2), (3, 3, 3, 3),
+                     (4, 1, 1, 1)]
+        vts = ((3, 12),)
+    else:
+        import itertools
+        lens_list = list(itertools.product((1, 2, 3), repeat=4)) + [(4, 1, 1, 1), (1, 4, 1, 1), (1, 1, 4, 1), (4, 4, 4, 4)]
+        vts = ((3, 11), (3, 12), (3, 13))
+    for lens in lens_list:
+        for vt in vts:
+            obs.append(exc_form_ob(lens, vt, tier))
     names = list(FORMS)
     if tier == "quick":
         seqs = [[a] for a in names] + [[a, b] for a in FORMS8 for b in FORMS8]
